@@ -378,6 +378,17 @@ class _Need(Exception):
     pass
 
 
+def own_method(M, cls, attrname):
+    """the definition of `attrname` that `cls` uses if it is not Payload's own (a dispatcher may inherit its
+    from_bitarray / create from a base class it shares with other dispatchers); None otherwise"""
+    for k in cls.__mro__:
+        if k is M.Payload:
+            return None
+        if attrname in k.__dict__:
+            return k.__dict__[attrname]
+    return None
+
+
 class _Opaque:
     """stands in for the bit array: it can only be handed on (to get_int / from_bitarray)"""
 
@@ -387,7 +398,7 @@ def probe_decode_tree(M, cls, exc_names):
     a script and asks for a branch when the script is exhausted; the layouts' `from_bitarray` reports
     which class was chosen.  Complete for dispatchers that look at the payload through get_int only
     (anything else touches the opaque stand-in and fails).  Returns a Lean `Tree` term."""
-    fn = cls.__dict__['from_bitarray'].__func__
+    fn = own_method(M, cls, 'from_bitarray').__func__
     real_get_int, real_from = M.get_int, M.Payload.__dict__['from_bitarray']
 
     def run(script):
@@ -447,7 +458,7 @@ def probe_create_tree(M, cls, keys, exc_names):
     fields that sit at the bit positions the decode side looks at): each absent, or one of the values
     of its width.  One-bit keywords are read as truth values, wider ones as `int(kwargs.get(k, d))`
     (the default d is the value that behaves like absence)."""
-    fn = cls.__dict__['create'].__func__
+    fn = own_method(M, cls, 'create').__func__
     real_create = M.Payload.__dict__['create']
 
     def outcome(kw):
@@ -565,8 +576,7 @@ def main():
     def visit(cls):
         if cls.__name__ in concrete or cls.__name__ in dispatch:
             return
-        own = cls.__dict__
-        is_dispatcher = 'from_bitarray' in own
+        is_dispatcher = own_method(M, cls, 'from_bitarray') is not None
         if is_dispatcher:
             dispatch[cls.__name__] = cls
         else:
@@ -579,7 +589,7 @@ def main():
     dec_trees, cre_trees = [], []
     for name, cls in dispatch.items():
         for side, attrname, out in (('decode', 'from_bitarray', dec_trees), ('create', 'create', cre_trees)):
-            fn = cls.__dict__.get(attrname)
+            fn = own_method(M, cls, attrname)
             if fn is None:
                 untrans('%s.%s not defined on the dispatcher itself' % (name, attrname))
                 continue
